@@ -2461,7 +2461,8 @@ impl Reference
 				})
 			}
 			(Some((dt, previous)), Some(Ok(vt)), Some(assignment_value))
-				if self.address_depth as usize != vt.pointer_depth() =>
+				if self.address_depth as usize != vt.pointer_depth()
+					&& *vt != ValueType::Void =>
 			{
 				let assigned_type = vt.clone();
 				let mut assignee_type = vt.clone().fully_dereferenced();
